@@ -19,6 +19,11 @@ def run(chk, replay=None):
                        "zero mean, non-finite everywhere, negative}, PLAIN / VEGAS / multi-channel and their MPI forms; every integrand call, callback and "
                        "return is an event; non-trivial = run that stops early or uses the built-in callback on a degenerate integrand")
     chk.model("MC_Loop", what="MC_Loop: one callback per iteration after exactly the rank's share of calls, nothing after a false return")
+    # several integrations at the same time on disjoint communicators: every group stops on its own results
+    chk.model("MC_MpiGroups", "MC_MpiGroups_local", what="MC_MpiGroups (groups of 2 and 3 ranks, needs 2 and 4): Independent, InStep, PROPERTY Termination")
+    chk.model("MC_MpiGroups", "MC_MpiGroups_local3", what="MC_MpiGroups (three groups): Independent, InStep, PROPERTY Termination")
+    chk.model("MC_MpiGroups", "MC_MpiGroups_world", what="MC_MpiGroups, decision broadcast on the world communicator: Independent violated",
+              expect_violation="Independent")
     chk.model("MC_Session", workers=8, what="MC_Session: CallbackProtocol / StopsOnFalse with the checkpoint object; Continue() truth table")
     exe = vt.build(*BUILDS[0][0], **BUILDS[0][1])
     trace = replay or chk.path("trace.ndjson")
